@@ -993,4 +993,149 @@ theorem rkthFuses_le : ∀ (n : Nat) (b : Bytes), b.length = 4 * n →
           omega
         · exact i3 w hw
 
+/-! ### sequences of `set_rkh` calls: the final table is the function slot ↦ last hash written -/
+
+/-- the zero entry -/
+abbrev Z32 : Bytes := List.replicate 32 (0 : UInt8)
+
+/-- the 4-slot table `RKHTv1.export` serialises (absent slots are zeros) -/
+def tbl (l : List Bytes) : List Bytes := l ++ List.replicate (4 - l.length) Z32
+
+theorem tbl_length (l : List Bytes) (hl : l.length ≤ 4) : (tbl l).length = 4 := by
+  simp [tbl]; omega
+
+theorem tbl_getElem? (l : List Bytes) (hl : l.length ≤ 4) (i : Nat) (hi : i < 4) : (tbl l)[i]? = some (l[i]?.getD Z32) := by
+  by_cases h : i < l.length
+  · simp [tbl, List.getElem?_append_left h, List.getElem?_eq_getElem h]
+  · have h' : l.length ≤ i := by omega
+    simp [tbl, List.getElem?_append_right h', List.getElem?_replicate, List.getElem?_eq_none h']
+    omega
+
+/-- the last hash written to slot `i` by a call sequence (none: the slot is never written) -/
+def lastWrite : List (Nat × Bytes) → Nat → Option Bytes
+  | [], _ => none
+  | (j, h) :: ops, i => match lastWrite ops i with
+    | some x => some x
+    | none => if j = i then some h else none
+
+/-- table invariant of `RKHTv1` inside a certificate block v1 -/
+def WFtab (l : List Bytes) : Prop := l.length ≤ 4 ∧ ∀ h ∈ l, h.length = 32
+
+/-- admissible calls: slot 0..3, a 32-byte hash (`set_root_key_hash` refuses every other length) -/
+def WFops (ops : List (Nat × Bytes)) : Prop := ∀ op ∈ ops, op.1 ≤ 3 ∧ op.2.length = 32
+
+theorem setRkh_step (l : List Bytes) (i : Nat) (h : Bytes) (hw : WFtab l) (hi : i ≤ 3) (hh : h.length = 32) :
+    ∃ l', setRkh l i h = .ok l' ∧ WFtab l' ∧ l'.length = max l.length (i + 1) ∧ tbl l' = (tbl l).set i h := by
+  obtain ⟨hl, h32⟩ := hw
+  have e2 : G.rkhV1Size = 32 := rfl
+  refine ⟨(l ++ List.replicate (i + 1 - l.length) Z32).set i h, ?_, ⟨?_, ?_⟩, ?_, ?_⟩
+  · cases l with
+    | nil =>
+      simp only [setRkh, setRkh.fill, e2]
+      rw [if_neg (by omega), if_neg (by simp; omega)]
+    | cons h0 t =>
+      have h0l := h32 h0 (by simp)
+      simp only [setRkh, setRkh.fill, e2, hh, h0l]
+      rw [if_neg (by omega), if_neg (by simp), if_neg (by simp at hl ⊢; omega)]
+  · simp; omega
+  · intro x hx
+    rcases List.mem_or_eq_of_mem_set hx with h1 | h1
+    · rcases List.mem_append.mp h1 with h2 | h2
+      · exact h32 x h2
+      · rw [(List.mem_replicate.mp h2).2]; simp
+    · rw [h1]; exact hh
+  · simp; omega
+  · have hi' : i = 0 ∨ i = 1 ∨ i = 2 ∨ i = 3 := by omega
+    rcases list_le4 l hl with hq | ⟨a, hq⟩ | ⟨a, b, hq⟩ | ⟨a, b, c, hq⟩ | ⟨a, b, c, d, hq⟩ <;> subst hq <;>
+      rcases hi' with rfl | rfl | rfl | rfl <;> rfl
+
+theorem setSeq_fold : ∀ (ops : List (Nat × Bytes)) (l : List Bytes), WFtab l → WFops ops →
+    ∃ l', setSeq l ops = .ok l' ∧ WFtab l' ∧ tbl l' = ops.foldl (fun t op => t.set op.1 op.2) (tbl l) := by
+  intro ops
+  induction ops with
+  | nil => intro l hw _; exact ⟨l, rfl, hw, rfl⟩
+  | cons op ops ih =>
+    intro l hw ho
+    obtain ⟨i, h⟩ := op
+    obtain ⟨hi, hh⟩ := ho (i, h) (by simp)
+    obtain ⟨l1, e1, w1, _, t1⟩ := setRkh_step l i h hw hi hh
+    obtain ⟨l2, e2, w2, t2⟩ := ih l1 w1 (fun op hop => ho op (by simp [hop]))
+    refine ⟨l2, ?_, w2, ?_⟩
+    · simp only [setSeq, e1, bind_ok, e2]
+    · rw [t2, t1]; rfl
+
+theorem foldl_set_getElem? : ∀ (ops : List (Nat × Bytes)) (t : List Bytes) (i : Nat),
+    (ops.foldl (fun t op => t.set op.1 op.2) t)[i]? = (t[i]?).map (fun x => (lastWrite ops i).getD x) := by
+  intro ops
+  induction ops with
+  | nil => intro t i; simp [lastWrite]
+  | cons op ops ih =>
+    intro t i
+    obtain ⟨j, h⟩ := op
+    simp only [List.foldl_cons, ih, lastWrite, List.getElem?_set]
+    by_cases hji : j = i
+    · subst hji
+      cases hlw : lastWrite ops j <;> cases ht : t[j]? <;> simp [List.getElem?_eq_none_iff, List.getElem?_eq_some_iff] at ht ⊢
+      all_goals first | omega | (obtain ⟨hlt, _⟩ := ht; simp [hlt]) | skip
+    · simp only [hji, if_false]
+      cases hlw : lastWrite ops i <;> simp
+
+/-- **last write wins**: after any admissible call sequence, slot `i` of the 4-slot table holds the last hash written to it,
+    and the former content (zeros if there was none) when it was never written -/
+theorem setSeq_last_write (l : List Bytes) (ops : List (Nat × Bytes)) (hw : WFtab l) (ho : WFops ops) :
+    ∃ l', setSeq l ops = .ok l' ∧ WFtab l' ∧
+      ∀ i, i < 4 → (tbl l')[i]? = some ((lastWrite ops i).getD ((tbl l)[i]?.getD Z32)) := by
+  obtain ⟨l', e, w, t⟩ := setSeq_fold ops l hw ho
+  refine ⟨l', e, w, ?_⟩
+  intro i hi
+  have hlen := tbl_length l hw.1
+  rw [t, foldl_set_getElem?]
+  have : i < (tbl l).length := by omega
+  simp [List.getElem?_eq_getElem this]
+
+theorem tbl_ext (a b : List Bytes) (ha : a.length ≤ 4) (hb : b.length ≤ 4) (h : ∀ i, i < 4 → (tbl a)[i]? = (tbl b)[i]?) :
+    tbl a = tbl b := by
+  apply List.ext_getElem?
+  intro i
+  by_cases hi : i < 4
+  · exact h i hi
+  · have h1 := tbl_length a ha; have h2 := tbl_length b hb
+    rw [List.getElem?_eq_none (by omega), List.getElem?_eq_none (by omega)]
+
+theorem rkthV1_tbl (c : CryptoOps) (l : List Bytes) (hw : WFtab l) : rkthV1 c l = .ok (c.hash .sha256 (tbl l).flatten) := by
+  simp only [rkthV1, exportV1_ok l hw.1 hw.2, bind_ok]; rfl
+
+theorem exportV1_tbl (l : List Bytes) (hw : WFtab l) : exportV1 l = .ok (tbl l).flatten := exportV1_ok l hw.1 hw.2
+
+/-- **order independence**: two admissible call sequences with the same last write per slot give the same exported table and RKTH -/
+theorem setSeq_order_indep (c : CryptoOps) (l : List Bytes) (ops1 ops2 : List (Nat × Bytes)) (hw : WFtab l)
+    (h1 : WFops ops1) (h2 : WFops ops2) (hlw : ∀ i, i < 4 → lastWrite ops1 i = lastWrite ops2 i) :
+    (setSeq l ops1 >>= exportV1) = (setSeq l ops2 >>= exportV1) ∧ (setSeq l ops1 >>= rkthV1 c) = (setSeq l ops2 >>= rkthV1 c) := by
+  obtain ⟨a, ea, wa, ta⟩ := setSeq_last_write l ops1 hw h1
+  obtain ⟨b, eb, wb, tb⟩ := setSeq_last_write l ops2 hw h2
+  have : tbl a = tbl b := tbl_ext a b wa.1 wb.1 (fun i hi => by rw [ta i hi, tb i hi, hlw i hi])
+  simp only [ea, eb, bind_ok, exportV1_tbl _ wa, exportV1_tbl _ wb, rkthV1_tbl c _ wa, rkthV1_tbl c _ wb, this, and_self]
+
+/-- **the v1 certificate block path, any call order**: when the last write to slot `i` is the hash of root key `i` (and no other slot
+    is written), the RKTH is the documented RoT value of the ordered key list - whatever the order of the calls, whichever slot
+    (e.g. the signing key's) is written first, however often slots are overwritten on the way -/
+theorem setSeq_keys_any_order (c : CryptoOps) (hc : CryptoLaws c) (ks : List Key) (h : KeysOK .certBlock1 ks)
+    (ops : List (Nat × Bytes)) (ho : WFops ops) (hlw : ∀ i, i < 4 → lastWrite ops i = (ks.map (keyHash c))[i]?) :
+    (setSeq [] ops >>= rkthV1 c) = .ok (rotkhV1 c ks) := by
+  obtain ⟨_, h4, hk⟩ := keysOK_cb1 h
+  have hl : (ks.map (keyHash c)).length ≤ 4 := by simpa using h4
+  have h32 : ∀ x ∈ ks.map (keyHash c), x.length = 32 := by
+    intro x hx
+    obtain ⟨k, hk', rfl⟩ := List.mem_map.mp hx
+    rw [keyHash_len c hc, hashAlg_rsa (hk k hk').2]; rfl
+  have w0 : WFtab [] := ⟨by simp, by simp⟩
+  obtain ⟨a, ea, wa, ta⟩ := setSeq_last_write [] ops w0 ho
+  have : tbl a = tbl (ks.map (keyHash c)) := by
+    apply tbl_ext a _ wa.1 hl
+    intro i hi
+    rw [ta i hi, hlw i hi, tbl_getElem? _ hl i hi, tbl_getElem? [] (by simp) i hi]
+    simp
+  simp only [ea, bind_ok, rkthV1_tbl c _ wa, this]
+  simp only [rotkhV1, rkhTableV1, tbl, List.length_map]
+
 end SpsdkVerif.Rkht
